@@ -10,6 +10,26 @@ SEQ = {'engine': 'cbmc-seq', 'spin_loops': True, 'rt_defs': {'VF_RACE': 1}, 'tim
 INSTANCES = [
     dict(SEQ, name='spsc', src='spsc_race.cpp', nthreads=2, steps=3, unwind=3,
          bounds='SPSCRingBuffer<probe,1> (2 slots): producer 3 emplaces, consumer 2 pops, drain by main; 3 rounds'),
+    dict(SEQ, name='async', src='async_race.cpp', nthreads=2, steps=3, unwind=2,
+         bounds='AsyncRequest<probe>: producer 2x tryEmplaceUpdate; main request/get/request/get (+ final get); 3 rounds'),
+    dict(SEQ, name='async_c2', src='async_race.cpp', defs={'VF_CONSUMERS': 2}, nthreads=3, steps=3, unwind=2,
+         bounds='AsyncRequest<probe>: producer 2x tryEmplaceUpdate; two consumers (main: request+get, T2: request+get); 3 rounds'),
+    dict(SEQ, name='event', src='event_race.cpp', defs={'VF_KIND': 0}, nthreads=3, steps=3, unwind=2,
+         bounds='CompletionEventImpl: writer plain store + notify(1); two readers wait(1) + plain read; 3 rounds'),
+    dict(SEQ, name='latch', src='event_race.cpp', defs={'VF_KIND': 1}, nthreads=3, steps=3, unwind=2,
+         bounds='Latch(2): two writers plain store + count_down(); main wait() + plain reads; 3 rounds'),
+    dict(SEQ, name='latch_aw', src='event_race.cpp', defs={'VF_KIND': 2}, nthreads=2, steps=3, unwind=2,
+         bounds='Latch(2): two threads plain store + arrive_and_wait() + read of the peer value; 3 rounds'),
+    dict(SEQ, name='rwlock', src='rwlock_race.cpp', defs={'VF_KIND': 0}, nthreads=3, steps=3, unwind=2,
+         bounds='RWLock: T1 lock/write/unlock, T2 lock_shared/read/unlock_shared, main try_lock_shared/read; 3 rounds'),
+    dict(SEQ, name='rwlock_try', src='rwlock_race.cpp', defs={'VF_KIND': 1}, nthreads=3, steps=3, unwind=2,
+         bounds='RWLock: T1 try_lock/write/unlock, T2 lock_shared/read/unlock_shared, main lock/write/unlock; 3 rounds'),
+    dict(SEQ, name='rwlock_updown', src='rwlock_race.cpp', defs={'VF_KIND': 2}, nthreads=3, steps=3, unwind=2,
+         bounds='RWLock: main lock_shared/read/lock_upgrade/write/lock_downgrade/read/unlock_shared, T1 try_lock_shared, T2 lock_shared; 3 rounds'),
+    dict(SEQ, name='chaselev', src='chaselev_race.cpp', defs={'VF_KIND': 0, 'VF_CAP': 2}, nthreads=3, steps=3, unwind=2,
+         bounds='ChaseLevDeque<probe,2>, no wrap-around: owner push,push,pop,(join),pop; two stealers one try_steal each; 3 rounds'),
+    dict(SEQ, name='chaselev_wrap', src='chaselev_race.cpp', defs={'VF_KIND': 1, 'VF_CAP': 1}, nthreads=2, steps=3, unwind=2,
+         bounds='ChaseLevDeque<probe,1>, slot reuse: owner push,pop,push,(join),pop; one stealer try_steal; 3 rounds'),
     dict(SEQ, name='mpmc', src='mpmc_race.cpp', nthreads=4, steps=3, unwind=3,
          bounds='MpmcRingBuffer<probe,2>: producers 2+1 emplaces, consumer 2 pops, drain by main; 3 rounds'),
 ]
